@@ -50,7 +50,8 @@ Tampers  == SignedTampers \cup ValueTampers
 Outcomes == {"accept", "reject", "raiseV", "raiseT"}
 
 \* Named deviations: places where the code does something a maintainer would probably call a defect.  They are
-\* modelled (the check passes on the unchanged tree) and visible (Intended # AsCoded exactly there).
+\* modelled (the check passes on the unchanged tree) and visible (Intended # Verdict exactly there; the evidence
+\* counts how the library behaves on those cases).  A library that answers the intended "reject" there conforms as well.
 \*   DevLateKeyImport  from_key / from_cert never look at the key bits; Ecc/Rsa/Ed25519Checker import them on
 \*                     EVERY validation, after the KeyLocator and SignatureType tests: bits the algorithm cannot
 \*                     import make the validator raise ValueError (packet by packet) instead of failing at
